@@ -11,8 +11,8 @@ using namespace vf;
 // ---- extract / save -----------------------------------------------------------------------------
 static void part_blocks(Ctx& ctx, uint64_t m, uint64_t b0, uint64_t b1) {
   const uint64_t maxrows = 17;
-  std::vector<uint64_t> sls = {2 * m, 2 * m + 4, 3 * m};
-  GBuf src(((maxrows - 1) * 3 * m + 2 * m) * 8, 8), dst(64 * maxrows, 16), vec(2 * m * 8, 24);
+  std::vector<uint64_t> sls = {2 * m, 2 * m + 4, 3 * m, 2 * m + 1, 2 * m + 2, 2 * m + 6, 3 * m + 5};  // multiples of 4 doubles and every residue modulo 4
+  GBuf src(((maxrows - 1) * (3 * m + 5) + 2 * m) * 8, 8), dst(64 * maxrows, 16), vec(2 * m * 8, 24);
   // index-encoding doubles: value = position + 1
   for (uint64_t i = 0; i < src.bytes / 8; ++i) src.as<double>()[i] = (double)(i + 1);
   std::vector<uint8_t> ssnap(src.p, src.p + src.bytes);
@@ -44,7 +44,7 @@ static void part_blocks(Ctx& ctx, uint64_t m, uint64_t b0, uint64_t b1) {
       }
       // contiguous and strided, nrows 0..4
       for (uint64_t nrows : std::vector<uint64_t>{0, 1, 2, 3, 4, 7, 8, 17}) { if (!err.empty()) break;
-        for (uint64_t sl : {(uint64_t)0, sls[0], sls[1], sls[2]}) {
+        for (uint64_t sl : std::vector<uint64_t>{0, sls[0], sls[1], sls[2], sls[3], sls[4], sls[5], sls[6]}) {
           uint64_t esl = sl ? sl : 2 * m;
           prefill(dst.p, dst.bytes, 2);
           if (sl == 0) { if (av) reim4_extract_1blk_from_contiguous_reim_avx(m, nrows, blk, dst.as<double>(), src.as<double>()); else reim4_extract_1blk_from_contiguous_reim_ref(m, nrows, blk, dst.as<double>(), src.as<double>()); }
